@@ -142,6 +142,10 @@ type GoArgsCase struct {
 	Params int    `json:"params"` // parameters of the worker (1..5): 1..4 take the direct path
 	Form   string `json:"form"`   // recv (go w(<-jobs, ...)) | counter (go w(next(), ...)) | incr (go w(k++ ...)) | many
 	Procs  int    `json:"procs"`
+	// elem form only. Var: 0 fixed parameters | 1 the worker is variadic (w(all...), the element is all[0]) |
+	// 2 the element travels in the variadic tail (w(j, rest...)). Typed: the list is a []int64
+	Var   int  `json:"var,omitempty"`
+	Typed bool `json:"typed,omitempty"`
 }
 
 func genGoArgs(t *rapid.T) GoArgsCase {
@@ -149,6 +153,10 @@ func genGoArgs(t *rapid.T) GoArgsCase {
 		Form: rapid.SampledFrom([]string{"recv", "recv", "counter", "counter", "many", "elem", "elem"}).Draw(t, "form"), Procs: rapid.SampledFrom([]int{1, 2, 16}).Draw(t, "procs")}
 	if c.Form == "many" {
 		c.N = rapid.SampledFrom([]int{257, 260, 300, 320}).Draw(t, "many")
+	}
+	if c.Form == "elem" {
+		c.Var = rapid.SampledFrom([]int{0, 0, 1, 2}).Draw(t, "variadic")
+		c.Typed = rapid.Bool().Draw(t, "typed")
 	}
 	return c
 }
@@ -180,23 +188,50 @@ func oracleGoArgs(c GoArgsCase, o *h.Obs) *h.Fail {
 			// the argument is a list element the caller assigns right after the go statement: the worker gets the
 			// value the element had when the go statement ran
 			fmt.Fprintf(&b, "items = []\nfor i = 0; i < %d; i++ {\n items += [i]\n}\n", c.N)
+			if c.Typed {
+				fmt.Fprintf(&b, "items = make([]int64, %d)\nfor i = 0; i < %d; i++ {\n items[i] = i\n}\n", c.N, c.N)
+			}
 			arg, after = "items[i]", "\n items[i] = -1"
 		}
-		if c.Form == "recv" {
-			fmt.Fprintf(&b, "jobs = make(chan int64, %d)\nfor i = 0; i < %d; i++ {\n jobs <- i\n}\nclose(jobs)\n", c.N, c.N)
-			arg = "<-jobs"
+		if c.Form == "elem" && c.Var > 0 {
+			// the same through a variadic worker: the values of a variadic tail are arguments like any other
+			b.Reset()
+			if c.Var == 1 {
+				b.WriteString("func w(all...) {\n res <- all[0]\n}\n")
+			} else {
+				b.WriteString("func w(j, rest...) {\n res <- rest[0]\n}\n")
+			}
+			fmt.Fprintf(&b, "res = make(chan interface, %d)\n", c.N)
+			if c.Typed {
+				fmt.Fprintf(&b, "items = make([]int64, %d)\nfor i = 0; i < %d; i++ {\n items[i] = i\n}\n", c.N, c.N)
+			} else {
+				fmt.Fprintf(&b, "items = []\nfor i = 0; i < %d; i++ {\n items += [i]\n}\n", c.N)
+			}
+			call := "go w(items[i], 7)"
+			if c.Var == 2 {
+				call = "go w(7, items[i], 8)"
+			}
+			fmt.Fprintf(&b, "for i = 0; i < %d; i++ {\n %s\n items[i] = -1\n}\nl = []\nfor i = 0; i < %d; i++ {\n l += [<-res]\n}\nl\n", c.N, call, c.N)
+		} else {
+			if c.Form == "recv" {
+				fmt.Fprintf(&b, "jobs = make(chan int64, %d)\nfor i = 0; i < %d; i++ {\n jobs <- i\n}\nclose(jobs)\n", c.N, c.N)
+				arg = "<-jobs"
+			}
+			call := "go w(" + arg + ", res" + extraArgs + ")"
+			if c.Params == 1 {
+				call = "go w(" + arg + ")"
+			}
+			call += after
+			fmt.Fprintf(&b, "for i = 0; i < %d; i++ {\n %s\n}\nl = []\nfor i = 0; i < %d; i++ {\n l += [<-res]\n}\nl\n", c.N, call, c.N)
 		}
-		call := "go w(" + arg + ", res" + extraArgs + ")"
-		if c.Params == 1 {
-			call = "go w(" + arg + ")"
-		}
-		call += after
-		fmt.Fprintf(&b, "for i = 0; i < %d; i++ {\n %s\n}\nl = []\nfor i = 0; i < %d; i++ {\n l += [<-res]\n}\nl\n", c.N, call, c.N)
 	}
 	src := b.String()
 	o.Key = fmt.Sprintf("%s|%d", src, c.Procs)
 	o.NonTrivial = true
 	o.Class(fmt.Sprintf("goargs_%s_params%d", c.Form, c.Params))
+	if c.Form == "elem" {
+		o.Class(fmt.Sprintf("goargs_elem_variadic%d_typed%v", c.Var, c.Typed))
+	}
 	var counter int64
 	var r *runResult
 	withProcs(c.Procs, func() {
